@@ -370,6 +370,13 @@ _INT_BIN = {
 
 
 def intop(op, a, b):
+    if op == "irem" and is_lit(b) and isinstance(b.args[0], int) and b.args[0] > 0 and b.args[0] & (b.args[0] - 1) == 0 and not is_lit(a):
+        return intop("band", a, lit(b.args[0] - 1))      # x % 2^k == x & (2^k - 1) for the unsigned integers used here
+    if op == "imul":
+        if is_lit(b) and b.args[0] == 1 and not isinstance(b.args[0], bool):
+            return a
+        if is_lit(a) and a.args[0] == 1 and not isinstance(a.args[0], bool):
+            return b
     if is_lit(a) and is_lit(b) and isinstance(a.args[0], int) and isinstance(b.args[0], int) \
             and not isinstance(a.args[0], bool) and not isinstance(b.args[0], bool):
         r = _INT_BIN[op](a.args[0], b.args[0])
@@ -418,4 +425,6 @@ def rebuild(op, args):
         return cmp(op, *args)
     if op == "unmont" and isinstance(args[0], T) and args[0].op == "mont":
         return args[0].args[0]
+    if op == "call" and args and args[0] == "core::num::<impl u64>::pow" and len(args) == 3 and is_lit(args[1]) and is_lit(args[2]):
+        return lit(args[1].args[0] ** args[2].args[0])
     return mk(op, *args)
